@@ -18,4 +18,10 @@ def wanted (parsed : List Rule) (names cats : List String) (m : Mul) : List Rule
     { r with cutoff := r.cutoff * m.cutoff.1 / m.cutoff.2,
              neighbourhood := r.neighbourhood * m.neighbourhood.1 / m.neighbourhood.2 }
 
+/-- options `check_options` must let through, and only these: positive fungal multipliers, requested
+    rule names that exist in the rule files of the strictness, requested categories that exist -/
+def optionsOk (parsed : List Rule) (allCats : List String) (q : Req) : Bool :=
+  decide (0 < q.cmul.1) && decide (0 < q.nmul.1) && q.names.all (fun n => parsed.any (·.name == n))
+    && q.cats.all (allCats.contains ·)
+
 end ASV.Rulesets
